@@ -461,16 +461,15 @@ def run(ctx, res):
             return True
         cs = cg.callers(k)
         return bool(cs) and all(only_from(c, roots, seen + (k,)) for c in cs)
-    okk = bool(callers_int) and all(only_from(c, {k_try}) for c in callers_int)
-    res.ob(okk)
-    if not okk:
-        res.finding("boundary|interrupt-callers", "Cpu::interrupt is reachable other than through try_interrupt (callers %r)" % callers_int)
+    # (Cpu::interrupt is only the exception-entry sequence: an instruction such as TRAPA may share it.  What the property
+    # restricts is where pending REQUESTS are taken - try_interrupt, below - and that no instruction touches the request
+    # queue, which the instruction-level analysis decides.)
     okk = bool(callers_try) and all(only_from(c, {k_run}) for c in callers_try)
     res.ob(okk)
     if not okk:
         res.finding("boundary|try_interrupt-callers", "try_interrupt is reachable other than through the run loop (callers %r)" % callers_try)
     reach_exec = cg.reachable(k_exec)
-    for k in (k_try, k_int):
+    for k in (k_try,):
         res.ob(k not in reach_exec)
         if k in reach_exec:
             res.finding("boundary|inside-instruction|%s" % k.split("::")[-1], "interrupt entry is reachable from inside instruction execution: %s" % " -> ".join(cg.path(k_exec, k)))
